@@ -47,12 +47,12 @@ theorem toric2D_servable (Lx Ly : Nat) (hx : 2 ≤ Lx) (hy : 2 ≤ Ly) (name : S
     · exact Or.inl h
     · right
       intro q hq
-      show (Toric2DCode.getDeformation name "y" q).isSome = true
-      rw [h, C01Toric2DCode.deformation_rule_on_qubits Lx Ly "y" q (Or.inr rfl) hq]; rfl
+      show (Toric2DCode.getDeformation name none q).isSome = true
+      rw [C01Toric2DCode.deformation_default_axis, h, C01Toric2DCode.deformation_rule_on_qubits Lx Ly "y" q (Or.inr rfl) hq]; rfl
     · right
       intro q _
-      show (Toric2DCode.getDeformation name "y" q).isSome = true
-      rw [h, C01Toric2DCode.deformation_rule_XY "y" q (Or.inr rfl)]; rfl
+      show (Toric2DCode.getDeformation name none q).isSome = true
+      rw [C01Toric2DCode.deformation_default_axis, h, C01Toric2DCode.deformation_rule_XY "y" q (Or.inr rfl)]; rfl
 
 theorem planar2D_tables : classTablesOk Generated.GuiFull.tables "Planar2DCode" surfaceTypes = true := by
   decide +kernel
@@ -86,12 +86,12 @@ theorem planar2D_servable (Lx Ly : Nat) (hx : 1 ≤ Lx) (hy : 1 ≤ Ly) (name : 
     · exact Or.inl h
     · right
       intro q hq
-      show (Planar2DCode.getDeformation name "y" q).isSome = true
-      rw [h, C01Planar2DCode.deformation_rule_on_qubits Lx Ly "y" q (Or.inr rfl) hq]; rfl
+      show (Planar2DCode.getDeformation name none q).isSome = true
+      rw [C01Planar2DCode.deformation_default_axis, h, C01Planar2DCode.deformation_rule_on_qubits Lx Ly "y" q (Or.inr rfl) hq]; rfl
     · right
       intro q _
-      show (Planar2DCode.getDeformation name "y" q).isSome = true
-      rw [h, C01Planar2DCode.deformation_rule_XY "y" q (Or.inr rfl)]; rfl
+      show (Planar2DCode.getDeformation name none q).isSome = true
+      rw [C01Planar2DCode.deformation_default_axis, h, C01Planar2DCode.deformation_rule_XY "y" q (Or.inr rfl)]; rfl
 
 theorem rotatedPlanar2D_tables : classTablesOk Generated.GuiFull.tables "RotatedPlanar2DCode" surfaceTypes = true := by
   decide +kernel
@@ -125,11 +125,11 @@ theorem rotatedPlanar2D_servable (Lx Ly : Nat) (hx : 1 ≤ Lx) (hy : 1 ≤ Ly) (
     · exact Or.inl h
     · right
       intro q hq
-      show (RotatedPlanar2DCode.getDeformation name "y" q).isSome = true
-      rw [h, C01RotatedPlanar2DCode.deformation_rule_on_qubits Lx Ly "y" q (Or.inr rfl) hq]; rfl
+      show (RotatedPlanar2DCode.getDeformation name none q).isSome = true
+      rw [C01RotatedPlanar2DCode.deformation_default_axis, h, C01RotatedPlanar2DCode.deformation_rule_on_qubits Lx Ly "y" q (Or.inr rfl) hq]; rfl
     · right
       intro q _
-      show (RotatedPlanar2DCode.getDeformation name "y" q).isSome = true
-      rw [h, C01RotatedPlanar2DCode.deformation_rule_XY "y" q (Or.inr rfl)]; rfl
+      show (RotatedPlanar2DCode.getDeformation name none q).isSome = true
+      rw [C01RotatedPlanar2DCode.deformation_default_axis, h, C01RotatedPlanar2DCode.deformation_rule_XY "y" q (Or.inr rfl)]; rfl
 
 end Panqec.GuiRepr
